@@ -64,7 +64,11 @@ def h_container(cfg):
             r = reqs[j] if j < len(reqs) else None
             reqs.append({'k': k, 'kind': 'noop', 'ev': None, 'cancelled': True, 'granted': False})
             if r is not None and r['ev'] is not None and not r['ev'].triggered:
-                r['ev'].cancel()
+                if op[0] == 'exit':
+                    r['ev'].__exit__(None, None, None)     # what leaving `with resource.put(..) as req:` does
+                    cover('with-exit-pending')
+                else:
+                    r['ev'].cancel()
                 r['cancelled'] = True
                 cover('cancelled-pending')
 
@@ -144,7 +148,11 @@ def h_store(cfg):
             r = reqs[j] if j < len(reqs) else None
             reqs.append({'k': k, 'kind': 'noop', 'ev': None, 'cancelled': True, 'granted': False})
             if r is not None and r['ev'] is not None and not r['ev'].triggered:
-                r['ev'].cancel()
+                if op[0] == 'exit':
+                    r['ev'].__exit__(None, None, None)     # what leaving `with resource.put(..) as req:` does
+                    cover('with-exit-pending')
+                else:
+                    r['ev'].cancel()
                 r['cancelled'] = True
                 cover('cancelled-pending')
 
@@ -241,7 +249,8 @@ def jobs(tier, seed):
     n = 3 if tier == 'quick' else 4
     plain, canc = _scripts(n, tier, rng)
     canc_sel = canc if tier != 'quick' else canc[:8]
-    must = [['put', 'put', ['cancel', 0]], ['get', 'get', ['cancel', 0], 'put'], ['put', 'put', ['cancel', 0], 'get'],
+    must = [['put', 'put', ['exit', 0]], ['get', 'get', ['exit', 0], 'put'],
+            ['put', 'put', ['cancel', 0]], ['get', 'get', ['cancel', 0], 'put'], ['put', 'put', ['cancel', 0], 'get'],
             ['get', 'get', ['cancel', 0]], ['put', 'get', 'put', ['cancel', 1]]]
     for si, ops in enumerate(plain + must + canc_sel):
         sorts = 'int' if si % 2 else 'real'
@@ -279,7 +288,7 @@ META = {
     'required_labels': ['c07.level-in-range', 'c07.level-conserved', 'c07.no-stranded-put', 'c07.no-stranded-get',
                         'c07.store-bounded', 'c07.store-fifo', 'c07.prio-smallest-first', 'c07.filter-first-match',
                         'c07.filter-matches'],
-    'required_covers': ['nontrivial', 'granted', 'delivered', 'cancelled-pending', 'pending-at-quiescence', 'filter-overtake'],
+    'required_covers': ['nontrivial', 'granted', 'delivered', 'cancelled-pending', 'with-exit-pending', 'pending-at-quiescence', 'filter-overtake'],
     'bounds': {'quick': 'histories of 3 operations (put/get) plus one cancel of an earlier pending request, issued at symbolic, possibly '
                         'coinciding instants; Container capacity/init/amounts symbolic Int or Real; Store/PriorityStore/FilterStore capacity '
                         'symbolic Int >= 1, priorities and filter thresholds symbolic Int',
